@@ -257,16 +257,19 @@ def run(eng: Engine, ck: Check):
                       f'{[unparse(e) for e, _, _ in gs]}', construct='cannot-connect unconditional')
 
     # ---- R-C11-INIT
+    from . import defs
+    fin_helpers, fin_direct = defs.connection_finalisation(eng)
     for f, sinks in ((d, [n for n in walk_local(d.node) if isinstance(n, ast.Return) and n.value is not None]),
                      (eng.func(NET, 'Network.on_peer_accepted'), calls_on(eng.func(NET, 'Network.on_peer_accepted').node, 'set_result')),
                      (hc, [x for x in calls_on(hc.node, 'emit')])):
         cf = eng.cfg(f)
-        fin = [n for call in calls_on(f.node, '_finalize_peer_connection') for n in cf.nodes_for(call)]
+        fin = [n for call in calls_in(f.node) if call_name(call) in fin_helpers and call_name(call) != f.name and isinstance(call.func, ast.Attribute) and
+               unparse(call.func.value) == 'self' for n in cf.nodes_for(call)] + [n for call in fin_direct(f) for n in cf.nodes_for(call)]
         ck.floor(f'R-C11-INIT.{f.name}', len(sinks), 1)
         for s in sinks:
             sn = cf.nodes_for(s)
             p = cf.find_path([cf.entry], lambda n: n in sn, avoid=lambda n: n in fin)
-            ck.ob('R-C11-INIT', f, s, f'{f.name}: the connection handed out has passed _finalize_peer_connection', bool(fin) and p is None,
+            ck.ob('R-C11-INIT', f, s, f'{f.name}: the connection handed out has been finalised (state ESTABLISHED / NEGOTIATING_TRANSFER set)', bool(fin) and p is None,
                   f'reachable without finalisation: {cf.describe_path(p, f.where) if p else "no finalize call"}',
                   construct=f'{f.name} finalize before {alpha_key(s)[:40]}')
     opa = eng.func(NET, 'Network.on_peer_accepted')
